@@ -408,7 +408,7 @@ static void run_server_mode()
   delete srv;
   sim::count("c18.messages_delivered", got.size());
   sim::count("c18.frames_sent", P.p.frames.size());
-  if (P.hostile) sim::count("c18.hostile_streams", 1);
+  if (P.hostile) { sim::count("c18.hostile_streams", 1); std::string cn = "c18.hostile." + P.hostileWhat; sim::count(cn.c_str(), 1); }
   sim::state_mix(got.size() * 131 + P.p.frames.size() * 7 + (uint64_t)P.hostile);
   sim::finish_ok();
 }
@@ -545,7 +545,7 @@ static void run_client_mode()
   }
   sim::count("c18.messages_delivered", got.size());
   sim::count("c18.frames_sent", P.p.frames.size());
-  if (P.hostile) sim::count("c18.hostile_streams", 1);
+  if (P.hostile) { sim::count("c18.hostile_streams", 1); std::string cn = "c18.hostile." + P.hostileWhat; sim::count(cn.c_str(), 1); }
   sim::state_mix(got.size() * 131 + P.p.frames.size() * 7 + (uint64_t)P.hostile);
   sim::finish_ok();
 }
